@@ -666,7 +666,17 @@ func togoGen(g *Gen) {
 			g.Emit("%s", togoLine(mode, r, term, "-"))
 		}
 	}
-	// 3. the keyed known finding: a time does not come back
+	// 3. fixed ops: one record shared between a pointer field and interface-typed fields (C10-02),
+	// in both declaration orders
+	vn := togoByName["vnode"]
+	leaf := func() *tnode {
+		return &tnode{tok: "H", tn: "vleaf", id: 2, keys: []string{"k105"}, kids: []*tnode{atom("i5")}}
+	}
+	for _, ks := range [][]string{{"k108.101.97.102", "k97.110.121"}, {"k97.110.121", "k108.101.97.102"}, {"k101", "k108.101.97.102.50"}, {"k108.101.97.102", "k101"}} {
+		g.Emit("%s", togoLine("conv", vn, &tnode{tok: "H", tn: "vnode", id: 1, keys: ks, kids: []*tnode{leaf(), atom("R2")}}, "-"))
+		g.Count("fixed shared-record pointer+interface")
+	}
+	// 4. the keyed known finding: a time does not come back
 	w := togoByName["weather"]
 	g.Emit("%s", togoLine("echo", w, &tnode{tok: "H", tn: "weather", id: 1, keys: []string{"k116.105.109.101", "k115.105.122.101"}, kids: []*tnode{atom("t1600000000"), atom("i12")}}, "-"))
 }
